@@ -5,15 +5,23 @@ Decided structurally from the serde-*generated* Deserialize code (the code that 
                       rejects unknown keys (fall-through of visit_str is unknown_field, no __ignore)
   R2 required/optional the effective key table (key names, required vs. optional vs. default and the default's
                       value) equals the table transcribed from the CNB spec (rules/tables/c08_schema.json)
-  R3 kinds            Rust field types agree with the spec's value kinds (string / bool / array / table)
+  R3 kinds            Rust field types agree with the spec's value kinds (string / bool / array / table) for every key;
+                      arrays are Vecs (order, repetitions kept; sbom-formats is a set), tables with defined keys are
+                      workspace structs (not free-form TOML tables)
   R4 classification   BuildpackDescriptor is an untagged choice of exactly {Component, Composite}; the
                       component key set has no `order`, the composite one requires `order` and has no
                       `targets` / `stacks`; both strict => order+targets/stacks is rejected by both
-  R5 validated leaves id / type / version / api leaves deserialize through their validating conversion
+  R5 validated leaves id / type / version / api leaves deserialize through their validating conversion, applied to
+                      exactly the document's string, a failing conversion fails the parse
+  R6 value paths      every key's value is read by the field type's own Deserialize; custom deserializers only when they
+                      are a string leaf (String then validating conversion); every reachable workspace type is accounted for
+  R7 enum names       closed string enums (sbom formats, platform os): document string -> variant table = spec
+  R8 reader           read_toml_file parses exactly the file's text as the requested type and propagates both failures
 Not decided: that serde / toml reject wrong kinds as documented (trusted base).
 """
 import re
 from .lib import serde_schema as S
+from . import C08_helpers as H
 from .lib.paths import strip
 from .lib.value import vstr, walk
 
@@ -61,6 +69,19 @@ def default_value_ok(prog, sl, name, callee):
     return True
 
 
+def absent_is_none(prog, sl, k):
+    """an optional key without spec default: the value for an absent key is None"""
+    if k.default in ('None', None):
+        return k.default == 'None'
+    if k.default == 'std::default::Default::default' or re.match(r'^<std::option::Option<.*> as std::default::Default>::default$', k.default):
+        return True   # Option's Default (the field type is checked to be Option<_>)
+    f = prog.fns.get(k.default)
+    if f is None:
+        return False
+    v = strip(sl.local(f, 0))
+    return v[0] == 'agg' and v[1] == 'std::option::Option' and v[2] == 'None'
+
+
 def run(ctx, rep):
     prog, sl = ctx.prog, ctx.slicer
     rep.rule('R1', 'every struct reachable from the document roots is strict (unknown key => error)')
@@ -68,12 +89,18 @@ def run(ctx, rep):
     rep.rule('R3', 'Rust field types = spec value kinds')
     rep.rule('R4', 'component/composite classification by disjoint strict key sets')
     rep.rule('R5', 'validated leaves deserialize through their validating conversion')
-    rep.not_decided = ['serde/toml rejecting values of the wrong kind (trusted)', 'values equal the document (toml crate)']
+    rep.rule('R6', 'values are read by the field type\'s own Deserialize / a recognised string leaf; every reachable type is accounted for')
+    rep.rule('R7', 'closed string enums: document string -> variant = spec')
+    rep.rule('R8', 'read_toml_file parses exactly the file\'s text and propagates failures')
+    rep.not_decided = ['serde/toml rejecting values of the wrong kind (trusted)', 'values equal the document (toml crate)',
+                       'the default of the metadata type parameter (GenericMetadata = Option<toml Table>): alias / parameter defaults are not in the facts',
+                       'which kinds / values a custom deserializer other than a string leaf accepts (reported UNPROVEN)']
     T = ctx.table('c08_schema.json')
     roots = T['roots'] + ['libcnb_data::buildpack::BuildpackDescriptor']
     closure = S.field_type_closure(prog, roots)
     n_strict = 0
     schemas = {}
+    unaccounted = []
     for t in closure:
         a = prog.adts[t]
         if not t.startswith('libcnb_data::'):
@@ -81,6 +108,7 @@ def run(ctx, rep):
         d = S.deser_struct(prog, sl, t)
         where = '%s:%s' % (a['file'], a['line'])
         if d is None:
+            unaccounted.append((t, where))
             continue
         for fp in d['fns']:
             rep.analysed(prog.fns[fp])
@@ -113,8 +141,8 @@ def run(ctx, rep):
             if spec == 'r':
                 rep.check(k.required is True, 'R2', subj, where, 'required', 'key %s is required by the spec but optional here (default %s)' % (key, k.default))
             elif spec == 'o':
-                rep.check(k.required is False and k.ty.startswith('std::option::Option<'), 'R2', subj, where, 'optional (None when absent)',
-                          'key %s should be optional: required=%s type=%s' % (key, k.required, k.ty))
+                rep.check(k.required is False and k.ty.startswith('std::option::Option<') and absent_is_none(prog, sl, k), 'R2', subj, where,
+                          'optional (None when absent)', 'key %s should be optional and absent = None: required=%s type=%s default=%s' % (key, k.required, k.ty, k.default))
             elif spec.startswith('d:'):
                 name = spec[2:]
                 dflt = k.default
@@ -133,16 +161,26 @@ def run(ctx, rep):
                 rep.check(ok, 'R2', subj, where, 'optional, default %s' % name,
                           'key %s must be optional with default %s: required=%s default=%s' % (key, name, k.required, k.default))
             elif spec == 'g':
-                ok = re.match(r'^[A-Z][A-Z0-9]*$', k.ty) is not None or k.ty.startswith('std::option::Option<toml::')
+                ok = re.match(r'^[A-Z][A-Z0-9]*$', k.ty) is not None or k.ty.startswith('std::option::Option<toml::map::Map<')
                 rep.check(ok, 'R2', subj, where, 'free-form metadata position (type parameter)', 'metadata position has fixed type %s' % k.ty)
             elif spec == 'u':
                 rep.holds('R2', subj, where, 'spec leaves presence open (required=%s)' % k.required, nontrivial=False)
-        for key, kind in T['key_kinds'].get(t, {}).items():
+        kinds_of_t = dict(H.EXTRA_KINDS.get(t, {}))
+        kinds_of_t.update(T['key_kinds'].get(t, {}))
+        for key, kind in kinds_of_t.items():
             k = d['keys'].get(key)
             if k is None or k.ty is None:
                 continue
             got = kind_of(prog, k.ty, T['kinds'])
             rep.check(got == kind, 'R3', '%s/%s' % (t, key), where, '%s : %s' % (key, kind), 'key %s has Rust type %s (%s), spec kind is %s' % (key, k.ty, got, kind))
+            if kind.startswith('array<') and (t, key) not in H.UNORDERED:
+                # the spec's arrays are ordered and may repeat values: only a Vec yields exactly the document's values
+                rep.check(peel(k.ty).startswith('std::vec::Vec<'), 'R3', 'ordered/%s/%s' % (t, key), where, '%s keeps order and duplicates' % key,
+                          'key %s is collected into %s: order / repeated values of the document are lost' % (key, k.ty))
+            if kind in ('table', 'array<table>') and want.get(key) not in ('g', 'u') and key != 'metadata':
+                # a table whose keys the spec defines must be a workspace struct (made strict by R1), not a free-form TOML table
+                rep.check('toml::' not in k.ty, 'R3', 'defined/%s/%s' % (t, key), where, '%s is a table with defined keys' % key,
+                          'key %s is typed %s: a free-form table accepts keys the format does not define' % (key, k.ty))
     for t in schemas:
         if schemas[t]['kind'] == 'struct' and t not in T['types']:
             a = prog.adts[t]
@@ -157,6 +195,9 @@ def run(ctx, rep):
         names = [re.sub(r'<.*$', '', v).split('::')[-1] for v in u['variants']]
         rep.check(sorted(names) == ['ComponentBuildpackDescriptor', 'CompositeBuildpackDescriptor'], 'R4', 'variants', where,
                   'untagged choice of Component | Composite', 'BuildpackDescriptor tries %s' % names)
+        pairs = {v['name']: [re.sub(r'<.*$', '', f['ty']).split('::')[-1] for f in v['fields']] for v in bd['variants']}
+        rep.check(pairs == {'Component': ['ComponentBuildpackDescriptor'], 'Composite': ['CompositeBuildpackDescriptor']}, 'R4', 'pairing', where,
+                  'variant Component carries the component descriptor, Composite the composite one', 'variant payloads are %s' % pairs)
         comp = schemas.get('libcnb_data::buildpack::ComponentBuildpackDescriptor')
         cpst = schemas.get('libcnb_data::buildpack::CompositeBuildpackDescriptor')
         if comp and cpst:
@@ -193,3 +234,130 @@ def run(ctx, rep):
         unchecked = any('new_unchecked' in n for n in names)
         rep.check(ok and not unchecked, 'R5', t, where, 'deserializes through its validating %s' % how,
                   '%s does not deserialize through its validating conversion (%s)' % (t, how))
+
+    # ---- R6: value paths, leaf accounting ------------------------------------------------------------------
+    spec_kind = {}
+    for t in T['types']:
+        spec_kind[t] = dict(H.EXTRA_KINDS.get(t, {}))
+        spec_kind[t].update(T['key_kinds'].get(t, {}))
+    n_direct = 0
+    for t, d in schemas.items():
+        if d['kind'] != 'struct':
+            continue
+        a = prog.adts[t]
+        where = '%s:%s' % (a['file'], a['line'])
+        vp = H.value_paths(prog, sl, t, d)
+        if vp is None:
+            rep.unproven('R6', 'value/' + t, where, 'visit_map of %s not recognised' % t)
+            continue
+        n_with = sum(1 for reads in vp.values() for r in reads if r[0] == 'with')
+        for key, k in d['keys'].items():
+            subj = 'value/%s/%s' % (t, key)
+            reads = vp.get(key) or []
+            if not reads:
+                rep.unproven('R6', subj, where, 'no place found where the value of key %s is read' % key)
+                continue
+            for how, x, _ in reads:
+                if how == 'direct':
+                    ok = H.norm_ty(x) == H.norm_ty(k.ty)
+                    n_direct += 1 if ok else 0
+                    rep.check(ok, 'R6', subj, where, 'read as %s' % x, 'key %s is read as %s, the field is %s' % (key, x, k.ty))
+                elif how == 'with':
+                    W = x
+                    if W is None or n_with > 1:
+                        rep.unproven('R6', subj, where, 'key %s is read through a custom deserializer that could not be resolved (%s)' % (key, _))
+                        continue
+                    rep.analysed(W)
+                    verdict, text = H.string_leaf(prog, sl, W)
+                    kind = spec_kind.get(t, {}).get(key)
+                    ret_ok = H.norm_ty(W.ret or '').startswith('std::result::Result<%s,' % H.norm_ty(k.ty))
+                    if verdict is True and kind == 'string' and ret_ok:
+                        rep.holds('R6', subj, where, 'custom deserializer %s = %s' % (W.path.split('::')[-1], text))
+                    elif verdict is False:
+                        rep.violated('R6', subj, where, 'key %s (custom deserializer %s): %s' % (key, W.path, text))
+                    else:
+                        rep.unproven('R6', subj, where, 'key %s is read through the custom deserializer %s; which kinds / values it accepts is not decided (%s; spec kind %s)'
+                                     % (key, W.path, text, kind))
+                else:
+                    rep.unproven('R6', subj, where, 'key %s: %s' % (key, x))
+    rep.check(n_direct >= 40, 'R6', 'coverage', '-', '%d keys read by their field type\'s Deserialize' % n_direct, 'only %d value paths recognised' % n_direct)
+    r5_leaves = ('libcnb_data::buildpack::id::BuildpackId', 'libcnb_data::launch::ProcessType',
+                 'libcnb_data::buildpack::version::BuildpackVersion', 'libcnb_data::buildpack::api::BuildpackApi')
+    for t, where in unaccounted:
+        if t in r5_leaves:
+            continue   # R5
+        if t in H.ENUM_SPEC:
+            continue   # R7 reports it
+        if t == 'libcnb_data::buildpack::BuildpackDescriptor':
+            continue   # R4 decides the untagged choice of the two descriptor kinds
+        subj = 'leaf/' + t
+        u2 = S.deser_untagged(prog, sl, t)
+        a = prog.adts[t]
+        if u2 is not None and a['kind'] == 'enum':
+            payload = [f['ty'] for v in a['variants'] for f in v['fields']]
+            ok = all(p in H.STRING_LIKE or p in T['kinds']['string'] for p in payload) and sorted(u2['variants']) == sorted(payload)
+            rep.check(ok, 'R6', subj, where, 'untagged choice of unit | %s' % payload, 'untagged %s tries %s (payloads %s): not a string-like leaf' % (t, u2['variants'], payload))
+            continue
+        g = H.deserialize_fn(prog, t)
+        if g is None:
+            rep.unproven('R6', subj, where, '%s is reachable from a document root; its Deserialize impl was not found' % t)
+            continue
+        rep.analysed(g)
+        verdict, text = H.string_leaf(prog, sl, g)
+        if verdict is True:
+            rep.holds('R6', subj, where, 'string leaf: %s' % text)
+        elif verdict is False:
+            rep.violated('R6', subj, where, '%s: %s' % (t, text))
+        else:
+            rep.unproven('R6', subj, where, '%s is reachable from a document root and deserializes through %s, which is neither a derived strict struct / enum nor a validated string leaf (%s)'
+                         % (t, g.path, text))
+    # R5 (continued): the validating conversion sees exactly the document's string and its failure fails the parse
+    for t in r5_leaves:
+        g = H.deserialize_fn(prog, t)
+        a = prog.adts.get(t)
+        where = '%s:%s' % (a['file'], a['line']) if a else '-'
+        if g is None:
+            continue   # reported above
+        verdict, text = H.string_leaf(prog, sl, g)
+        if verdict is True:
+            rep.holds('R5', 'exact/' + t, where, text)
+        elif verdict is False:
+            rep.violated('R5', 'exact/' + t, where, '%s: %s' % (t, text))
+        else:
+            rep.unproven('R5', 'exact/' + t, where, 'Deserialize of %s is not `validate(String::deserialize(d)?)?` (%s)' % (t, text))
+    # ---- R7: closed string enums ---------------------------------------------------------------------------
+    for t, want in H.ENUM_SPEC.items():
+        a = prog.adts.get(t)
+        where = '%s:%s' % (a['file'], a['line']) if a else '-'
+        d = schemas.get(t)
+        if t not in closure:
+            rep.unproven('R7', 'names/' + t, where, '%s is not reachable from a document root any more' % t)
+            continue
+        if d is None or d['kind'] != 'enum' or d['strict'] is not True:
+            rep.violated('R7', 'names/' + t, where, '%s is not a derived strict unit enum any more: values other than %s may be accepted' % (t, sorted(want)))
+            continue
+        table, info = H.enum_table(prog, sl, t, d)
+        if table is None:
+            rep.unproven('R7', 'names/' + t, where, 'name table of %s not recognised: %s' % (t, info))
+            continue
+        rep.analysed(info)
+        rep.check(table == want, 'R7', 'names/' + t, where, 'accepts exactly %s' % sorted(want),
+                  '%s maps %s, the spec says %s' % (t, sorted(table.items()), sorted(want.items())))
+    for t, d in schemas.items():
+        if d['kind'] == 'enum' and t not in H.ENUM_SPEC:
+            a = prog.adts[t]
+            rep.unproven('R7', 'untabled/' + t, '%s:%s' % (a['file'], a['line']), 'enum %s is reachable from a document root but has no name table' % t)
+    # ---- R8: the reader ------------------------------------------------------------------------------------
+    rf = prog.fns.get('libcnb_common::toml_file::read_toml_file')
+    if rf is None:
+        rep.unproven('R8', 'read/read_toml_file', '-', 'libcnb_common::toml_file::read_toml_file not found')
+    else:
+        rep.analysed(rf)
+        verdict, text = H.reader_ok(prog, sl, rf)
+        where = '%s:%s' % (rf.file, rf.line)
+        if verdict is True:
+            rep.holds('R8', 'read/read_toml_file', where, text)
+        elif verdict is False:
+            rep.violated('R8', 'read/read_toml_file', where, 'read_toml_file %s' % text)
+        else:
+            rep.unproven('R8', 'read/read_toml_file', where, 'read_toml_file is not `toml::from_str::<A>(&fs::read_to_string(path)?)?` (%s)' % text)
